@@ -73,8 +73,13 @@ def gen(rng, tier):
             ops.append(['leave', rng.randrange(nhosts), p, ns, room()])
         elif k < 0.33:
             ops.append(['close', rng.randrange(nhosts), ns, room()])
-        elif k < 0.39:
+        elif k < 0.37:
             ops.append(['disc', rng.randrange(nhosts), p, ns])
+        elif k < 0.39:
+            # "the host leaves, kick the guest": p's disconnect handler
+            # disconnects q, wherever q is connected
+            ops.append(['disc_kick', rng.randrange(nhosts), p,
+                        rng.randrange(npeers), ns])
         elif k < 0.42:
             ops.append(['connect', p, ns])
         elif k < 0.72:
@@ -132,6 +137,16 @@ def _run(case, cfg, w):
     bus = SimBus(w, lags=LAGS[cfg['lags']])
     Mgr = AsyncSimPubSubManager if is_async else SimPubSubManager
     hosts = []
+    kick_map = {}      # (sid, ns) -> sid its disconnect handler disconnects
+
+    def dplan(label, args, ev):
+        tgt = kick_map.pop((args[0], label[2]), None)
+        if tgt is None:
+            return [('ret', None)]
+        me = w.servers[label[0]]
+        rec.count('app.disconnect_from_disconnect_handler')
+        return [('do', lambda: me.disconnect(tgt, namespace=label[2])),
+                ('ret', None)]
     for h in range(cfg['nhosts']):
         name = 'h%d' % h
         m = Mgr(bus, name)
@@ -141,6 +156,9 @@ def _run(case, cfg, w):
             srv.on('connect', w.make_handler((name, 'func', ns, 'connect'),
                                              lambda l, a, e: [('ret', None)],
                                              coroutine=False), namespace=ns)
+            srv.on('disconnect', w.make_handler(
+                (name, 'func', ns, 'disconnect'), dplan,
+                coroutine=is_async), namespace=ns)
         srv.manager_initialized = True
         if is_async:
             w.call(_ainit, m)
@@ -286,6 +304,22 @@ def _run(case, cfg, w):
             sc.forget(p, ns)
             model.disconnect(sid, ns)
             after_membership(ns)
+        elif k == 'disc_kick':
+            _, hi, p, q, ns = op
+            sid, qsid = sc.sid(p, ns), sc.sid(q, ns)
+            if not sid or not qsid or p == q:
+                continue
+            if owner_host[sid] != owner_host[qsid]:
+                nontrivial = True
+                stats['cross_host_ops'] += 1
+            kick_map[(sid, ns)] = qsid
+            touch_membership(None, ns)
+            w.api('h%d' % hi, 'disconnect', sid, namespace=ns)
+            sc.forget(p, ns)
+            sc.forget(q, ns)
+            model.disconnect(sid, ns)
+            model.disconnect(qsid, ns)
+            after_membership(ns)
         elif k == 'emit':
             _, via, ns, to_s, skip_s = op
             to = res_target(to_s, ns)
@@ -418,7 +452,7 @@ def _run(case, cfg, w):
         else:
             w.settle(horizon=0.0)
         if k in ('enter', 'leave', 'close', 'disc', 'connect', 'emit_then',
-                 'ack_then_disc'):
+                 'ack_then_disc', 'disc_kick'):
             if pending_mops and taint[0] is None:
                 # a membership change issued while another one is still in
                 # flight: the hosts may apply the two in either order (a
